@@ -128,6 +128,15 @@ CHECKS["C17"] = dict(
     note="The reference is the same front end on the pre-merged document.",
     ref="DESIGN.md §6 P-C17")
 
+CHECKS["C19"] = dict(
+    technique="runtime monitoring: round-trip monitor (rulegen -> parse-tree -> validate on the source and on a mutated template)",
+    text="Generated CloudFormation-shaped templates (1-5 resources over 1-3 types; plain and 17 classes of odd strings, ints, bools, nested "
+         "lists/maps; repeated and distinct values; uniform and non-uniform property sets) are fed to `rulegen` as a real process (twice); unless an "
+         "error is reported the output must parse to exactly one rule per resource type with properties, every rule must PASS on the source "
+         "template, and the rule of a type must FAIL after one scalar property value is changed to an unseen value.",
+    note="A rulegen crash is C08's concern (inconclusive here). Failing self-validations are attributed to value classes so that the two known findings stay narrow.",
+    ref="DESIGN.md §6 P-C19")
+
 PENDING = {}
 
 
